@@ -89,6 +89,7 @@ def instants(ctx):
 
 
 def run(ctx):
+    returned_objects_search(ctx)
     r = lib.rng("C16b")
     ins = instants(ctx)
     offsets = [None] + list(range(-840, 841)) + [-1439, 1439, -1000, 1000]
@@ -140,7 +141,50 @@ def check_one(ctx, e, s):
         ctx.fail("roundtrip", {"dt": x, "status": st}, lib.v_text(want), lib.v_text(back))
 
 
+
+def returned_objects_search(ctx):
+    """decode, change the returned object (clear / set its flags), decode the same bytes again: the second result is what the
+    bytes say (a decoder must not hand out an object it will hand out again)"""
+    import attr
+    from dlms_cosem import time as t
+    for b in list(range(0, 256, 5)) + [0x81, 0xFF, 0x0F, 0x80, 0x01]:
+        first = guarded(lambda: t.ClockStatus.from_bytes(bytes([b])))
+        if not first.ok:
+            continue
+        want = st_list(first.value)
+        try:
+            for f in attr.fields(type(first.value)):
+                setattr(first.value, f.name, not getattr(first.value, f.name))
+        except Exception:
+            continue
+        again = guarded(lambda: t.ClockStatus.from_bytes(bytes([b])))
+        ctx.tried("decode_after_changing_result", key=("status", b))
+        if not again.ok or st_list(again.value) != want:
+            ctx.fail("decoded_object_shared_between_calls", {"shared_result": True, "status_byte": b}, lib.v_text(want), lib.v_text(st_list(again.value)) if again.ok else repr(again))
+            return
+    for status in (0x00, 0x81, 0xFF):
+        raw = bytes([0x07, 0xE4, 1, 2, 0xFF, 3, 4, 5, 0, 0x00, 0x3C, status])
+        first = guarded(lambda: t.datetime_from_bytes(raw))
+        if not first.ok or first.value[1] is None:
+            continue
+        want = st_list(first.value[1])
+        try:
+            for f in attr.fields(type(first.value[1])):
+                setattr(first.value[1], f.name, not getattr(first.value[1], f.name))
+        except Exception:
+            continue
+        again = guarded(lambda: t.datetime_from_bytes(raw))
+        ctx.tried("decode_after_changing_result", key=("datetime", status))
+        if not again.ok or st_list(again.value[1]) != want:
+            ctx.fail("decoded_object_shared_between_calls", {"shared_result": True, "status_byte": status, "via": "datetime_from_bytes"}, lib.v_text(want),
+                     lib.v_text(st_list(again.value[1])) if again.ok else repr(again))
+            return
+
+
 def replay(ctx, rp):
+    if rp["case"].get("shared_result"):
+        returned_objects_search(ctx)
+        return bool(ctx.failures)
     c = rp["case"]
     e = [c["dt"], c["status"]]
     s = lib.run_model([("spec_datetime", [e[0], e[1] or [False] * 5])])[0]
